@@ -446,37 +446,32 @@ def r11_6(ctx, rep):
     "`stop + step` overshoots whenever stop - start is not a multiple of step (1:2:4 would run 1, 3, 5)",
 )
 def r11_7(ctx, rep):
+    from ..pyutil import inlined
     R = "R11.7"
     fn = ctx.func(GEN, "ForLoop.__init__", R)
     site = GEN + ":ForLoop.__init__"
-    part = {}
-    for st in walk_local(fn):
-        if isinstance(st, ast.Assign) and isinstance(st.targets[0], ast.Name):
-            for a in ast.walk(st.value):
-                if isinstance(a, ast.Attribute) and a.attr in ("start", "step", "stop") and not isinstance(getattr(a, "_parent", None), ast.Attribute):
-                    part.setdefault(a.attr, (st.targets[0].id, st.value))
-                elif isinstance(a, ast.Attribute) and a.attr in ("start", "step", "stop"):
-                    part.setdefault(a.attr, (st.targets[0].id, st.value))
-    if set(part) != {"start", "step", "stop"}:
-        raise MechanismMissing(R, "start/step/stop of the loop range are no longer read in ForLoop.__init__ (found %s)" % sorted(part))
-    how = {k: ("get_integer" if isinstance(v[1], ast.Call) and (call_name(v[1]) or "").endswith("get_integer") else norm(v[1])) for k, v in part.items()}
-    rep.ob(R, site, "range parts resolved uniformly", len(set(how.values())) == 1 and "get_integer" in how.values(),
-           "start, step and stop must all be resolved with get_integer (found %s): a part read as `.value` fails for `for i in k:n`" % how)
-    names = {k: v[0] for k, v in part.items()}
     ar = [c for c in calls(fn) if (call_name(c) or "").endswith("arange")]
-    if not ar:
-        raise MechanismMissing(R, "np.arange no longer builds the iteration values")
-    c = ar[0]
-    ok, why = False, "np.arange(%s)" % ", ".join(norm(a) for a in c.args)
-    if len(c.args) >= 3 and is_name(c.args[0], names["start"]) and is_name(c.args[2], names["step"]):
-        b = c.args[1]
-        if isinstance(b, ast.BinOp) and isinstance(b.op, ast.Add) and is_name(b.left, names["stop"]):
-            unit = b.right
-            t = norm(unit)
-            signed = any(isinstance(x, ast.Call) and (call_name(x) or "").split(".")[-1] in ("sign", "copysign") for x in ast.walk(unit)) \
-                or (isinstance(unit, ast.IfExp) and {literal(unit.body), literal(unit.orelse)} == {1, -1})
-            ok = signed and not (is_name(unit, names["step"]))
-            why += " — the bound must be %s + sign(%s), found + %s" % (names["stop"], names["step"], t)
+    if not ar or len(ar[0].args) < 3:
+        raise MechanismMissing(R, "np.arange(start, bound, step) no longer builds the iteration values")
+    # temporaries are inlined, so the three arguments are compared as expressions over the loop's range node
+    a0, a1, a2 = (inlined(x, fn.body) for x in ar[0].args[:3])
+    how = {}
+    for nm, e in (("start", a0), ("step", a2), ("stop", a1.left if isinstance(a1, ast.BinOp) else a1)):
+        if isinstance(e, ast.Call) and (call_name(e) or "").endswith("get_integer") and e.args and isinstance(e.args[0], ast.Attribute) and e.args[0].attr == nm:
+            how[nm] = ("get_integer", norm(e.args[0].value))
+        else:
+            how[nm] = (norm(e)[:60], None)
+    uniform = all(v[0] == "get_integer" for v in how.values()) and len({v[1] for v in how.values()}) == 1
+    rep.ob(R, site, "range parts resolved uniformly", uniform,
+           "start, step and stop of the loop range must all be resolved with get_integer on the same range node (found %s): a part read "
+           "as `.value` fails for `for i in k:n`" % how)
+    ok, why = False, "np.arange(%s)" % ", ".join(norm(x)[:50] for x in (a0, a1, a2))
+    if isinstance(a1, ast.BinOp) and isinstance(a1.op, ast.Add):
+        unit = a1.right
+        signed = any(isinstance(x, ast.Call) and (call_name(x) or "").split(".")[-1] in ("sign", "copysign") and any(norm(y) == norm(a2) for y in x.args)
+                     for x in ast.walk(unit)) or (isinstance(unit, ast.IfExp) and {literal(unit.body), literal(unit.orelse)} == {1, -1})
+        ok = signed and norm(unit) != norm(a2)
+        why += " — the bound must be stop + sign(step), found stop + %s" % norm(unit)[:50]
     rep.ob(R, site, "exclusive bound one unit past stop", ok, why)
 
 
